@@ -162,6 +162,20 @@ Update(st, c) ==
     [] st.mode = "arr"  -> ArrUpdate(st, c)
 
 (* ----------------------------------------------------------- abstract layer *)
+(* ---- the estimator's two register sums, exactly ---------------------------------------------- *)
+\* kxq0 = sum over registers below 32 of 2^-value, kxq1 = the same for values 32..63. Every term and
+\* every partial sum is a dyadic rational that an f64 holds exactly, so the implementation's
+\* incrementally maintained fields must EQUAL these sums: kxq0 * 2^31 and kxq1 * 2^63 as 64-bit
+\* integers (four 16-bit limbs, Wide.tla).
+W16 == INSTANCE Wide WITH B <- 65536, N <- 4
+Histogram(st) ==
+  FoldLeft(LAMBDA h, s : [h EXCEPT ![Value(st, s)] = @ + 1], [v \in 0..63 |-> 0],
+           [i \in 1..KOf(st) |-> i - 1])
+Kxq0Of(h) == W16!WSum([i \in 1..32 |-> W16!WShl(W16!WOfSmall(h[i - 1]), 31 - (i - 1))])
+Kxq1Of(h) == W16!WSum([i \in 1..32 |-> W16!WShl(W16!WOfSmall(h[31 + i]), 63 - (31 + i))])
+Kxq0W(st) == Kxq0Of(Histogram(st))
+Kxq1W(st) == Kxq1Of(Histogram(st))
+
 Coupons(st) ==
   CASE st.mode = "list" -> RangeOf(st.list)
     [] st.mode = "set"  -> RangeOf(st.tab) \ {NoC}
